@@ -32,7 +32,7 @@ def BOUNDS(tier):
             "0..1 ordinary requests and followed by %r, in the same read or a later one; channel_request_lookahead in {0,1}%s; every interleaving "
             "of the I/O thread and %s with at most 1 pre-emption at source-line granularity of channel.py (2 pre-emptions for the follower split "
             "across two reads after %s)." % (
-                sorted(CLOSERS), sorted(FOLLOW), " and {2,5} for the closers CC / E400 with the followers 'two' / 'split'" if tier == "quick" else " and {2,5}",
+                sorted(CLOSERS), sorted(FOLLOW), " (quick: lookahead 1 for CC / E400 with every follower and for the other closers with complete / split / two; lookahead 0 for CC; 2 and 5 for CC with two / split)" if tier == "quick" else " and {2,5}",
                 "one worker" if tier == "quick" else "one or two workers", "Connection: close, lookahead 1, client taking every byte" if tier == "quick" else "CC / H10 / E400, lookahead 1 and 2"))
 
 
@@ -41,8 +41,15 @@ def jobs(tier):
     for c in CLOSERS:
         for f in FOLLOW:
             for la in (0, 1, 2, 5):
-                if tier == "quick" and la in (2, 5) and (f not in ("two", "split") or c not in ("CC", "E400")):
-                    continue
+                if tier == "quick":
+                    # the quick set: lookahead 1 for CC / E400 with every follower and for the other closers with complete / split / two;
+                    # lookahead 0 for CC; lookahead 2 and 5 for CC with two / split.  Everything else is in the thorough tier.
+                    if la == 0 and c != "CC":
+                        continue
+                    if la == 1 and c not in ("CC", "E400") and f not in ("complete", "split", "two"):
+                        continue
+                    if la in (2, 5) and (c != "CC" or f not in ("two", "split")):
+                        continue
                 js.append(dict(name="%s:%s:la%d" % (c, f, la), closer=c, follow=f, lookahead=la, workers=1, P=1))
     # two pre-emptions for the follower that is split across two reads (the I/O thread is pre-empted between recv() and received(), and again
     # before it tears the connection down): the later read, no leading request
